@@ -205,9 +205,20 @@ fn history_t<T: ItemLike>(tid: usize, hseed: u64, ops: usize, long: usize, churn
                         mismatch = Some(format!("step {}: remove_at({}) gave {} expected {}", step, pos, got, want));
                     }
                 }
-                7 => {
+                7 if (r / 10) % 2 == 0 => {
                     let pos = ((r / 100) as usize) % (len + 1);
                     let (l, rr) = std::mem::replace(&mut t, Treap::new()).split_at(pos);
+                    t = Treap::merge(rr, l);
+                    model.rotate_left(pos);
+                }
+                7 => {
+                    // the same rotation through split_by with an identity-prefix predicate
+                    let pos = ((r / 100) as usize) % (len + 1);
+                    let prefix: Vec<u32> = model[..pos].to_vec();
+                    let (l, rr) = std::mem::replace(&mut t, Treap::new()).split_by(|it| prefix.contains(&it.id()));
+                    if l.size() != pos && mismatch.is_none() {
+                        mismatch = Some(format!("step {}: split_by left size {} expected {}", step, l.size(), pos));
+                    }
                     t = Treap::merge(rr, l);
                     model.rotate_left(pos);
                 }
